@@ -18,11 +18,12 @@ MIN_DISTINCT = 2
 
 BASE = dict(sleeps=(1.0, 2.0), moa=(0, 0.53, 1.57), timeout=(0.53,), scope=(INF,), resched=(0.53, INF))
 RICH = dict(sleeps=(0, 1.0, 2.0), moa=(0, 0.53, 1.57, 2.59), timeout=(0, 0.53, 1.57), scope=(INF, 1.57), resched=(0, 0.53, INF))
-SLIM5 = dict(sleeps=(1.0, 2.0), yields=("yield",), moa=(0.53,), timeout=(0.53,), scope=(INF,), resched=(), ks=(0, 1))
+SLIM5 = dict(sleeps=(1.0, 2.0), yields=("yield",), moa=(0.53,), timeout=(), scope=(INF,), resched=(), ks=(0, 1))
+SHIELD5 = dict(sleeps=(1.0,), yields=("syield",), moa=(0,), timeout=(), scope=(INF,), resched=(), ks=(0, 1))
 SLIM6 = dict(sleeps=(1.0,), yields=("yield",), moa=(0.53,), timeout=(), scope=(INF,), resched=(), ks=(0,))
 # tier -> families (name, alphabet, min nodes, max nodes, alphabet whose programs were already enumerated by an earlier family)
 TIERS = {
-    "quick": [("base", BASE, 1, 4, None), ("rich", RICH, 1, 3, BASE), ("slim5", SLIM5, 5, 5, None)],
+    "quick": [("base", BASE, 1, 4, None), ("rich", RICH, 1, 3, BASE), ("slim5", SLIM5, 5, 5, None), ("shield5", SHIELD5, 5, 5, None)],
     "thorough": [("base", BASE, 1, 5, None), ("rich", RICH, 1, 4, BASE), ("slim6", SLIM6, 6, 6, None)],
 }
 NPARTS = {"quick": 96, "thorough": 192}
@@ -58,11 +59,12 @@ ASSUMPTIONS = [
 _A = {
     "base": "sleeps {1,2}, yield_, shielded_yield, move_on_after {0,0.53,1.57}, timeout {0.53}, scope {inf}, cancel k in {0,1}, reschedule(k, now+{0.53,inf})",
     "rich": "sleeps {0,1,2}, yield_, shielded_yield, move_on_after {0,0.53,1.57,2.59}, timeout {0,0.53,1.57}, scope {inf, absolute 1.57}, cancel k in {0,1}, reschedule(k, now+{0,0.53,inf})",
-    "slim5": "sleeps {1,2}, yield_, move_on_after {0.53}, timeout {0.53}, scope {inf}, cancel k in {0,1}",
+    "slim5": "sleeps {1,2}, yield_, move_on_after {0.53}, scope {inf}, cancel k in {0,1}",
+    "shield5": "sleep {1}, shielded_yield, move_on_after {0}, scope {inf}, cancel k in {0,1}",
     "slim6": "sleep {1}, yield_, move_on_after {0.53}, scope {inf}, cancel(0)",
 }
 BOUNDS = {
-    "quick": f"nesting <= 3; ALL programs with <= 4 nodes over [{_A['base']}] + ALL with <= 3 nodes over [{_A['rich']}] + ALL with exactly 5 nodes over [{_A['slim5']}]",
+    "quick": f"nesting <= 3; ALL programs with <= 4 nodes over [{_A['base']}] + ALL with <= 3 nodes over [{_A['rich']}] + ALL with exactly 5 nodes over [{_A['slim5']}] and over [{_A['shield5']}]",
     "thorough": f"nesting <= 3; ALL programs with <= 5 nodes over [{_A['base']}] + ALL with <= 4 nodes over [{_A['rich']}] + ALL with exactly 6 nodes over [{_A['slim6']}]",
 }
 
